@@ -47,7 +47,20 @@ impl RightCtxDFAs<StateIdx> {
         let mut nfa: NFA<()> = NFA::new();
         nfa.add_regex(bindings, right_ctx, None, ());
 
+        #[cfg(lexgen_verif)]
+        {
+            crate::verif::emit(&format!("CTXBEGIN {} {}", idx, crate::verif::regex_sexp(right_ctx)));
+            crate::verif::emit(&nfa.verif_dump());
+        }
+
         let dfa = nfa_to_dfa(&nfa);
+
+        #[cfg(lexgen_verif)]
+        {
+            crate::verif::emit(&dfa.verif_dump());
+            crate::verif::emit("CTXEND");
+        }
+
         self.dfas.push(dfa);
 
         RightCtxIdx(idx)
